@@ -31,6 +31,7 @@ PANICKING = [
     (r"std::cell::RefCell::<T>::(borrow|borrow_mut)", "refcell"),
     (r"std::iter::Iterator::step_by", "step_by"),
     (r"core::num::<impl \w+>::(pow|div_euclid|rem_euclid|next_power_of_two|abs|isqrt|ilog\w*)", "num"),
+    (r"core::fmt::rt::Argument::<'_>::from_usize", "fmt-count"),     # runtime width / precision: core::fmt panics above u16::MAX
     (r"std::thread::spawn", "spawn"),
     (r"std::time::SystemTime::.*", "systime"),
 ]
@@ -345,6 +346,10 @@ def discharge_by_pattern(crate, e):
             v = nonzero_const(b, c.args[1], e.bb)
             if v:
                 return "division by the non-zero constant %s" % v
+    if e.kind == "fmt-count":
+        why = small_count(b, e.meta["call"].args[0], e.bb)
+        if why:
+            return why
     if e.kind == "index":
         why = const_ascii_prefix(b, e.meta["call"])
         if why:
@@ -531,6 +536,53 @@ def nonzero_const(b, op, at):
         from .affine import const_str_of
         cs = const_str_of(b, ds[0]["call"].args[0], ds[0]["call"].bb)
         return len(cs.encode("utf-8")) or None if cs is not None else None
+    return None
+
+
+def small_count(b, op, at, depth=0):
+    """A runtime width/precision handed to the formatter (`{:.1$}`, `{:>w$}`) is at most u16::MAX when it is a constant in
+    range or a lossless widening of a u8/u16 value."""
+    if depth > 10 or not isinstance(op, dict):
+        return None
+    if op.get("k") == "const":
+        v = op.get("ref_v", op.get("v"))
+        if isinstance(v, int) and not isinstance(v, bool) and 0 <= v <= 65535:
+            return "constant formatting count %d" % v
+        return None
+    pl = op["place"]
+    l = pl["l"]
+    proj = [e for e in pl["p"] if e != "*"]
+    ds = [d for d in b.defs().get(l, ()) if d["kind"] in ("assign", "call") and b.def_reaches(d, at)]
+    if len(ds) == 1 and ds[0]["kind"] == "call" and not ds[0]["call"].dest["p"] and not proj:
+        c = ds[0]["call"]
+        if c.matches(r"std::option::Option::<T>::(unwrap_or|unwrap_or_default|unwrap)") and c.args:
+            sl = b.slice_args(c, [0], through_calls=False)
+            dflt = const_val(c.args[1]) if len(c.args) > 1 else 0
+            if sl.calls and all(k.matches(r"std::fmt::Formatter::<'a>::(precision|width)") for k in sl.calls) and isinstance(dflt, int) and 0 <= dflt <= 65535:
+                return "the formatter's own precision/width (a u16 inside core::fmt), defaulted to %s" % dflt
+        if c.matches(r"std::convert::(From::from|Into::into)") and c.args:
+            at0 = c.args[0]
+            sty = (at0.get("place") or {}).get("ty") or at0.get("ty") or ""
+            if sty in ("u8", "u16"):
+                return "formatting count converted from a %s" % sty
+        return None
+    if len(ds) != 1 or ds[0]["kind"] != "assign" or ds[0]["lhs"]["p"]:
+        return None
+    rv = ds[0]["rv"]
+    if rv["k"] == "agg" and rv.get("ak") == "tuple" and proj and isinstance(proj[0], dict) and isinstance(proj[0].get("f"), int) and proj[0]["f"] < len(rv["ops"]):
+        return small_count(b, rv["ops"][proj[0]["f"]], ds[0]["bb"], depth + 1)
+    if proj:
+        return None
+    if rv["k"] == "use":
+        return small_count(b, rv["op"], ds[0]["bb"], depth + 1)
+    if rv["k"] in ("ref", "copyderef"):
+        return small_count(b, {"k": "copy", "place": rv["place"]}, ds[0]["bb"], depth + 1)
+    if rv["k"] == "cast":
+        src = rv["op"]
+        sty = src.get("ty") or (src.get("place") or {}).get("ty") or (b.locals[src["place"]["l"]]["ty"] if src.get("place") and not src["place"]["p"] else "")
+        if sty in ("u8", "u16"):
+            return "formatting count widened from a %s" % sty
+        return None
     return None
 
 
